@@ -251,8 +251,11 @@ def check(ctx):
             "f/trust": {"f.go": "package trust\n\nimport (\n\t\"example.com/m/trusted_x\"\n\t\"example.com/m/b/same\"\n)\n\nfunc T() uint64 {\n\treturn trusted_x.F() + same.Plain()\n}\n",
                         "g.go": "package trust\n\nimport \"example.com/m/b/same\"\n\nfunc T2() uint64 {\n\treturn same.Plain()\n}\n"},
             "trusted_x": {"f.go": "package trusted_x\n\nfunc F() uint64 {\n\treturn 2\n}\n"},
+            # two files of one package import DIFFERENT packages that are both named util
+            "g/twoutils": {"f1.go": "package twoutils\n\nimport \"example.org/go-journal.v2/util\"\n\nfunc A() uint64 {\n\treturn util.F()\n}\n",
+                           "f2.go": "package twoutils\n\nimport \"example.org/other/util\"\n\nfunc B() uint64 {\n\treturn util.F()\n}\n"},
         }
-        expect_ffi = {"a/same": "disk", "b/same": "none", "c/viaa": "disk", "d/empty": "none", "e/dup": "none", "f/trust": "none", "trusted_x": "none"}
+        expect_ffi = {"a/same": "disk", "b/same": "none", "c/viaa": "disk", "d/empty": "none", "e/dup": "none", "f/trust": "none", "trusted_x": "none", "g/twoutils": "none"}
         root = os.path.join(scratch, "co")
         alone = {}
         for d in co:
@@ -285,6 +288,12 @@ def check(ctx):
                     ctx.violation("counterexample", "header / footer of a package do not match the FFI it reaches",
                                   {"proto": "cli-co", "packages": {d: co[d]}, "package": d}, expected={"ffi": ffi, "generic_section_with_footer": ffi == "none"},
                                   observed=txt[:1500] or "<no file>")
+        ureq = [l for l in (alone["g/twoutils"] or b"").decode().split("\n") if "Require" in l and "prelude" not in l]
+        want_ureq = ["From Goose Require example_org.go_journal_v2.util.", "From Goose Require example_org.other.util."]
+        if ureq != want_ureq and not found:
+            found = True
+            ctx.violation("counterexample", "Require lines: two files of one package import different packages with the same name",
+                          {"proto": "cli-co", "packages": {"g/twoutils": co["g/twoutils"]}}, expected=want_ureq, observed=ureq)
         treq = [l for l in (alone["f/trust"] or b"").decode().split("\n") if "Require" in l and "prelude" not in l]
         want_req = ["From Goose Require example_com.m.b.same.", "From Perennial.goose_lang.trusted Require Import example_com.m.trusted_x."]
         if treq != want_req and not found:
